@@ -30,7 +30,7 @@
 (* "dismax"] with f the field prefix in force ("" = none).                       *)
 EXTENDS QuerySem
 
-Letter(c) == CASE c = 1 -> "a" [] c = 2 -> "b" [] c = 3 -> "c" [] c = -1 -> "?" [] c = -2 -> "*"
+Letter(c) == CASE c = 1 -> "a" [] c = 2 -> "b" [] c = 3 -> "c" [] c = 7 -> "t" [] c = 8 -> "o" [] c = -1 -> "?" [] c = -2 -> "*"
 RECURSIVE Word(_)
 Word(t) == IF t = <<>> THEN "" ELSE Letter(Head(t)) \o Word(Tail(t))
 Num(n) == IF n < 0 THEN "-" \o ToString(0 - n) ELSE ToString(n)
